@@ -1,0 +1,75 @@
+//go:build verif
+// +build verif
+
+package rsec16
+
+// Verification-only yield points for the coder's worker goroutines.
+// Compiled only with -tags verif; with the tag off verif_off.go
+// provides empty functions and the shipped behaviour is unchanged.
+
+// VerifHooks is the table of callbacks a simulator may install. Any
+// nil field is skipped.
+type VerifHooks struct {
+	// Fork is called by the parent before the workers of a
+	// parallel region are spawned.
+	Fork func(numWorkers, outRows, dataLength int)
+	// Enter is called first thing by worker i.
+	Enter func(i int)
+	// Exit is called last thing by worker i (deferred), with the
+	// value of recover(); returning true re-panics with it.
+	Exit func(i int, recovered interface{}) (repanic bool)
+	// Step is called before every kernel call that writes
+	// out[row][dataStart:dataEnd] from in[col][dataStart:dataEnd].
+	Step func(outStart, outEnd, dataStart, dataEnd, row, col int)
+	// Join is called by the parent right before it waits for the
+	// workers, Joined right after the wait returned.
+	Join   func()
+	Joined func()
+}
+
+var verifHooks *VerifHooks
+
+// SetVerifHooks installs (or, with nil, removes) the hook table. Not
+// safe for use concurrently with a running coder.
+func SetVerifHooks(h *VerifHooks) { verifHooks = h }
+
+func verifFork(numWorkers, outRows, dataLength int) {
+	if h := verifHooks; h != nil && h.Fork != nil {
+		h.Fork(numWorkers, outRows, dataLength)
+	}
+}
+
+func verifEnter(i int) {
+	if h := verifHooks; h != nil && h.Enter != nil {
+		h.Enter(i)
+	}
+}
+
+func verifExit(i int) {
+	h := verifHooks
+	if h == nil || h.Exit == nil {
+		return
+	}
+	r := recover()
+	if h.Exit(i, r) && r != nil {
+		panic(r)
+	}
+}
+
+func verifStep(outStart, outEnd, dataStart, dataEnd, row, col int) {
+	if h := verifHooks; h != nil && h.Step != nil {
+		h.Step(outStart, outEnd, dataStart, dataEnd, row, col)
+	}
+}
+
+func verifJoin() {
+	if h := verifHooks; h != nil && h.Join != nil {
+		h.Join()
+	}
+}
+
+func verifJoined() {
+	if h := verifHooks; h != nil && h.Joined != nil {
+		h.Joined()
+	}
+}
